@@ -381,6 +381,9 @@ func (it *Interp) runFrom(fr *frame, b *ssa.BasicBlock, i int, pred *ssa.BasicBl
 		case *ssa.FieldAddr, *ssa.IndexAddr:
 			// addresses are interpreted at the load/store
 		case *ssa.Slice:
+			if outs, forked := it.sliceSplit(fr, st, b, i, pred, x); forked {
+				return outs
+			}
 			fr.env[x] = it.slice(fr, st, x)
 		case *ssa.MakeSlice:
 			fr.env[x] = it.makeSlice(fr, st, x)
@@ -1121,6 +1124,12 @@ func (it *Interp) builtin(st *AState, c *ssa.Call, name string, args []*AVal) *A
 		v := TopInt(it.IntBits, true)
 		v.Lo = bi(0)
 		return v.reduce()
+	case "append":
+		// append(dst []byte, src []byte...): in place while the capacity suffices, otherwise into a fresh array (contents kept)
+		if len(args) == 2 && args[0].K == ABytes && args[1].K == ABytes {
+			return it.appendBytes(st, args[0], st.Bytes(&AVal{K: ABytes, Arr: args[1].Arr, Off: args[1].Off, Len: lenOf(args[1])}))
+		}
+		return TopV()
 	case "min", "max":
 		if len(args) == 2 && args[0].K == AInt && args[1].K == AInt {
 			a, b := args[0], args[1]
@@ -1282,6 +1291,15 @@ func (it *Interp) stdModel(st *AState, c *ssa.Call, name string, args []*AVal) (
 			}
 		}
 		return nil, true
+	case "encoding/binary.bigEndian.AppendUint16", "encoding/binary.bigEndian.AppendUint32":
+		n := 2
+		if strings.HasSuffix(name, "32") {
+			n = 4
+		}
+		if len(args) == 3 && args[1].K == ABytes && args[2].K == AInt {
+			return []*AVal{it.appendBytes(st, args[1], splitBE(st, args[2], n))}, true
+		}
+		return []*AVal{TopV()}, true
 	case "errors.Is":
 		if len(args) == 2 && args[0].K == AErr && args[1].K == AErr {
 			switch {
@@ -1550,4 +1568,77 @@ func (it *Interp) constIntMap(g *ssa.Global) (map[int64]int64, bool) {
 	}
 	constIntMapCache[g] = out
 	return out, true
+}
+
+// sliceSplit: a slice of a byte buffer whose low or high bound is not a constant but ranges over at most 17 values (a token length
+// 0…8, an extension size 0/1/2/4) is executed once per value: the buffer geometry stays concrete on each path (`rest = rest[tkl:]`
+// followed by `len(data) - len(rest)`). Values outside the buffer are left to the ordinary slice (which records the event).
+func (it *Interp) sliceSplit(fr *frame, st *AState, b *ssa.BasicBlock, i int, pred *ssa.BasicBlock, x *ssa.Slice) ([]result, bool) {
+	base := it.get(fr, st, x.X)
+	if base.K != ABytes || base.Arr < 0 {
+		return nil, false
+	}
+	var which ssa.Value
+	for _, bnd := range []ssa.Value{x.Low, x.High} {
+		if bnd == nil {
+			continue
+		}
+		v := it.get(fr, st, bnd)
+		if _, isC := v.IsConst(); isC {
+			continue
+		}
+		if which != nil {
+			return nil, false // two open bounds: not split
+		}
+		which = bnd
+	}
+	if which == nil {
+		return nil, false
+	}
+	v := it.get(fr, st, which)
+	if v.K != AInt || v.Lo == nil || v.Hi == nil || v.Lo.Sign() < 0 {
+		return nil, false
+	}
+	span := new(big.Int).Sub(v.Hi, v.Lo)
+	if !span.IsInt64() || span.Int64() > 16 {
+		return nil, false
+	}
+	var out []result
+	for k := v.Lo.Int64(); k <= v.Hi.Int64(); k++ {
+		it.paths++
+		if it.paths > it.MaxPaths {
+			return []result{{abort: true, why: "path bound exceeded", st: st}}, true
+		}
+		f2, s2 := fr.clone(), st.clone()
+		c := ConstAInt(bi(k), v.W, v.S)
+		f2.env[which] = c
+		it.backProp(f2, which, c)
+		f2.env[x] = it.slice(f2, s2, x)
+		out = append(out, it.runFrom(f2, b, i+1, pred, s2)...)
+	}
+	return out, true
+}
+
+func lenOf(v *AVal) int {
+	if v.K != ABytes || v.Arr < 0 {
+		return 0
+	}
+	return v.Len
+}
+
+// appendBytes models append(dst, bs...) on abstract byte buffers.
+func (it *Interp) appendBytes(st *AState, dst *AVal, bs []*AVal) *AVal {
+	n := lenOf(dst)
+	if dst.Arr >= 0 && n+len(bs) <= dst.Cap {
+		for i, b := range bs {
+			st.Arrays[dst.Arr][dst.Off+n+i] = b
+		}
+		return &AVal{K: ABytes, Arr: dst.Arr, Off: dst.Off, Len: n + len(bs), Cap: dst.Cap}
+	}
+	var all []*AVal
+	if dst.Arr >= 0 {
+		all = append(all, st.Bytes(&AVal{K: ABytes, Arr: dst.Arr, Off: dst.Off, Len: n})...)
+	}
+	all = append(all, bs...)
+	return st.NewArray(all)
 }
